@@ -857,6 +857,17 @@ impl Store {
         Ok((value_changed, ls_subscribers))
     }
 
+    /// Puts an entry back into the store the way it was persisted, i.e. with its kind and CAS
+    /// version unchanged. The entry count is not maintained, see [`Store::count_entries`].
+    #[cfg(any(feature = "redb", feature = "sqlite", feature = "turso"))]
+    pub fn restore(&mut self, path: &[RegularKeySegment], value: ValueEntry) {
+        let mut current_node = &mut self.data;
+        for elem in path {
+            current_node = current_node.get_or_create_child(elem.to_owned()).0;
+        }
+        current_node.set_value(value);
+    }
+
     pub fn ls(&self, path: &[impl AsRef<str>]) -> Option<Vec<RegularKeySegment>> {
         if path.is_empty() {
             panic!("path must not be empty!");
